@@ -8,10 +8,14 @@ use slac::Value as V;
 
 const FNS: [&str; 4] = ["re_is_match", "re_find", "re_capture", "re_replace"];
 const HAYS: &[&str] = &["", "abc", "aaa", "a1b22c333", "Hello World", "äbc", "foo@bar.com", "2024-01-05", "aXbXc", "x", "a.b", "a+b+c", "ab ab", "ßΣ",
-    "C:\\Qt\\bin", "\\server\\Queue a\\Eb", "x\\d\\b", "total 12USD", "testing tested", "key=value", "10-20 30-40"];
+    "C:\\Qt\\bin", "\\server\\Queue a\\Eb", "x\\d\\b", "total 12USD", "testing tested", "key=value", "10-20 30-40",
+    "the color red", "the colour red", "ac", "a", "xyz", "abbc", "Helo World", "teing", "xz", "f@", "224", "ab", "HELO"];
 const PATS: &[&str] = &["a", "a*", "(a)(b)?", "[0-9]+", "\\d+", "(", "a{1000000}", "^", "$", "b|c", "(?P<y>\\d{4})-(\\d\\d)", "\\b", ".", "", "((((a))))", "[", "\\",
     "(?i)HELLO", "ä", "a|", "(x)?", "\\w+", "[a-c]{2}", "b*?", "(a)|(b)", "\\.", "X", "(?:a)(b)", "*",
-    "\\B(USD|EUR)", "\\B(ing|ed)", "\\b=(\\w+)", "\\b-(\\d+)", "\\B(b)", "\\b(\\w)"];
+    "\\B(USD|EUR)", "\\B(ing|ed)", "\\b=(\\w+)", "\\b-(\\d+)", "\\B(b)", "\\b(\\w)",
+    // a literal prefix whose LAST character is made optional by a counted repetition with minimum 0 (a "required literal" prefilter gets these wrong),
+    // optional literals of every other spelling, literal prefixes before alternations and classes
+    "colou{0,1}r", "ab{0,2}", "ab{0}", "ab{0,}c", "ab?c", "ab*c", "ab??c", "Hel{0}lo", "Hello{0,3} W", "te(st){0,1}ing", "ab{1,2}", "xy{0}z|abc", "fo{0,}@", "20{0,1}24", "a\\.{0,1}b", "(?i)hel{0,1}lo"];
 const REPS: &[&str] = &["", "x", "$1", "$0$0", "${y}", "$", "-", "yy", "$$"];
 const LITS: &[&str] = &["", "a", "ab", "a.b", "a+b", "X", ".", "(", "[", "\\", "ä", "b c", "$", "^", "aa", "*", "C:\\Qt", "\\Q", "\\Queue", "a\\E", "\\d", "\\b", "\\Qt\\b"];
 
